@@ -121,7 +121,9 @@ class SMCSampler(MCMCSampler):
         """
         if not self.adaptive:
             beta += beta_step
-            if beta >= 1.0:
+            # Accumulating 1 / n_steps in floating point can fall just short
+            # of 1 (e.g. 0.9999999999999999), so clamp within half a step
+            if beta > 1.0 - 0.5 * beta_step:
                 beta = 1.0
         else:
             beta_prev = beta
